@@ -108,6 +108,13 @@ def feed : Nat → Stream → Bytes → Nat → Sink → Sink × Stream × Excep
         if n = 0 then (snk', st', .ok acc)
         else feed fuel st' (data.drop n) (acc + n) snk'
 
+/-- `Write::write_all` as std defines it for a type that does not override it (lzma-rs does not):
+`write` is repeated on what is left; `Ok(0)` while something is left is the error `WriteZero` -/
+def writeAll (st : Stream) (data : Bytes) (snk : Sink) : Sink × Stream × Except Err Unit :=
+  match feed (data.length + 1) st data 0 snk with
+  | (snk', st', .ok n) => (snk', st', if n = data.length then .ok () else .error .io)
+  | (snk', st', .error e) => (snk', st', .error e)
+
 /-- `<Stream as Write>::flush` -/
 def flush (st : Stream) : M Unit :=
   match st.state with
